@@ -26,6 +26,7 @@ fn dispatch(sx: &Sx) -> String {
     match sx.head() {
         "osstr" => modes::lex::osstr(args),
         "cursor" => modes::lex::cursor(args),
+        "parse" => modes::parse::parse(args),
         m => format!("unknown-mode {m}"),
     }
 }
